@@ -245,7 +245,7 @@ IfChain(c2, b2) == If(<<ArmC(Bo(FALSE), <<Ex(I(1))>>), ArmC(c2, b2), ArmE(<<Ex(I
 PosNames == <<"ifcond", "ifthen", "elifcond", "elifthen", "ifelse",
               "casescrut", "casearm", "casearmbind", "caseelse",
               "loopcond", "loopbody",
-              "callee", "arg1", "arg2", "stdarg", "primearg", "arrowlhs", "arrowarg", "arrowprime",
+              "callee", "calleefld", "calleeidx", "calleecall", "arg1", "arg2", "stdarg", "primearg", "arrowlhs", "arrowarg", "arrowprime",
               "tupleelem", "listelem", "blobfield", "variantpayload", "indexbase", "fieldbase",
               "neg", "not", "binleft", "binright", "cmpright", "andleft", "andright", "orright",
               "asgrhs", "opasgrhs", "asgtarget", "opasgtarget", "fldtarget", "fldoptarget", "deepfldtarget", "fldtargetinloop",
@@ -273,6 +273,11 @@ PosDef(pos) ==
       [] pos = "loopbody"  -> PD("i", TInt, {}, FALSE,
                                  <<DefM(301, TInt, I(0)), Loop(Bin("<", V(301), I(1)), <<Asg("+=", V(301), L)>>), Ex(V(301))>>)
       [] pos = "callee"    -> PD("f", TInt, {}, FALSE, <<Ex(Call(L, <<>>))>>)
+      \* callee expressions of other shapes: a fn-typed field of a global blob, an element of a global tuple, the
+      \* result of calling the global
+      [] pos = "calleefld" -> PD("n", TInt, {"BM"}, FALSE, <<Ex(Call(Fld(L, "m"), <<>>))>>)
+      [] pos = "calleeidx" -> PD("g", TInt, {}, FALSE, <<Ex(Call(Idx(L, 0), <<>>))>>)
+      [] pos = "calleecall" -> PD("c", TInt, {}, FALSE, <<Ex(Call(Call(L, <<>>), <<>>))>>)
       [] pos = "arg1"      -> PD("i", TInt, {}, TRUE, <<Ex(Call(V(GH), <<L, I(1)>>))>>)
       [] pos = "arg2"      -> PD("i", TInt, {}, TRUE, <<Ex(Call(V(GH), <<I(1), L>>))>>)
       [] pos = "stdarg"    -> PD("i", TInt, {}, FALSE, <<Ex(Call(Std("print"), <<L>>)), Ex(I(1))>>)
@@ -333,7 +338,12 @@ LateTop(lk) ==
       [] lk = "p" -> DefN(GL, "const", TPairI, Tup(<<I(7), I(8)>>), "late")
       [] lk = "q" -> DefN(GL, "mut", TPairI, Tup(<<I(7), I(8)>>), "late")
       [] lk = "w" -> DefN(GL, "mut", TName("W"), BlobL("W", <<FI("b", BlobL("B", <<FI("x", I(7))>>))>>), "late")
-LateShow(lk) == CASE lk = "b" -> Fld(L, "x") [] lk = "w" -> Fld(Fld(L, "b"), "x") [] lk = "f" -> Call(L, <<>>) [] OTHER -> L
+      [] lk = "n" -> DefN(GL, "const", TName("BM"), BlobL("BM", <<FI("m", Fn(<<>>, TInt, <<Ex(I(7))>>))>>), "late")
+      [] lk = "g" -> DefN(GL, "const", TTuple(<<TFn(<<>>, TInt), TInt>>), Tup(<<Fn(<<>>, TInt, <<Ex(I(7))>>), I(8)>>), "late")
+      [] lk = "c" -> DefN(GL, "const", TNone, Fn(<<>>, TFn(<<>>, TInt), <<Ex(Fn(<<>>, TInt, <<Ex(I(7))>>))>>), "late")
+LateShow(lk) == CASE lk = "b" -> Fld(L, "x") [] lk = "w" -> Fld(Fld(L, "b"), "x") [] lk = "f" -> Call(L, <<>>)
+                  [] lk = "n" -> Call(Fld(L, "m"), <<>>) [] lk = "g" -> Call(Idx(L, 0), <<>>) [] lk = "c" -> Call(Call(L, <<>>), <<>>)
+                  [] OTHER -> L
 
 HelperTop == DefN(GH, "const", TNone,
                   Fn(<<P(401, TInt), P(402, TInt)>>, TInt, <<Ex(Bin("+", Bin("*", V(401), I(10)), V(402)))>>), "h2")
@@ -346,14 +356,13 @@ PosCases == {c \in [pos : Positions, user : Users] : c.user = "expr" => SingleEx
 \* still demands the SAME observation in every textual order: an assignment to an element of a global tuple.
 UnspecCases == {[pos |-> "idxtarget", user |-> u] : u \in {"start", "init", "iife"}}
 
-PosProg(c) ==
-    LET d == PosDef(c.pos)
-        body == Fn(<<>>, d.ret, d.body)
-        hasF == c.user \in {"start", "init"}
-        hasU == c.user # "start"
-        uinit == CASE c.user = "init" -> Call(V(GF), <<>>)
-                   [] c.user = "iife" -> Call(body, <<>>)
-                   [] c.user = "expr" -> d.body[1].e
+PosProgD(d, user) ==
+    LET body == Fn(<<>>, d.ret, d.body)
+        hasF == user \in {"start", "init"}
+        hasU == user # "start"
+        uinit == CASE user = "init" -> Call(V(GF), <<>>)
+                   [] user = "iife" -> Call(body, <<>>)
+                   [] user = "expr" -> d.body[1].e
                    [] OTHER -> Nil IN
     [decls |-> (IF "E" \in d.decls \/ d.lk = "e" THEN <<EnumDecl>> ELSE <<>>)
                \o (IF "B" \in d.decls \/ d.lk = "b" THEN <<BlobDecl>> ELSE <<>>)
@@ -366,6 +375,7 @@ PosProg(c) ==
                     Fn(<<>>, TVoid, (IF hasU THEN <<PrintS(V(GU))>> ELSE <<>>)
                                     \o (IF hasF THEN <<PrintS(Call(V(GF), <<>>))>> ELSE <<>>)
                                     \o <<PrintS(LateShow(d.lk))>>), "start")]
+PosProg(c) == PosProgD(PosDef(c.pos), c.user)
 
 \* SELF-REFERENCE of a non-function initialiser: the global u mentions ITSELF at position P of its own
 \* initialiser (directly, or inside an immediately called closure): a value cycle of length one - no complete
